@@ -1741,6 +1741,33 @@ def _or_nanspec(ctx, spec, row):
     ctx.count("oracle:spec-nan-row")
 
 
+def _or_spec_float32(ctx, spec):
+    """a specification stored in single precision: area and interp must agree with the same numbers as float64 to single
+    precision; -> True if a failure was reported"""
+    from pyyeti import psd
+
+    a64 = np.array(spec, dtype=np.float64)
+    a32 = a64.astype(np.float32)
+    if not np.array_equal(a32.astype(np.float64), a64):
+        return False
+    x = np.sqrt(a64[:-1, 0] * a64[1:, 0])
+    with np.errstate(all="ignore"):
+        ar32, ar64 = psd.area(a32), psd.area(a64)
+        i32, i64 = np.asarray(psd.interp(a32, x.astype(np.float32))).ravel(), psd.interp(a64, x).ravel()
+    if not np.allclose(ar32, ar64, rtol=1e-5, atol=0):
+        near = any(abs(sl + 1) < 1e-5 for sl in _slopes([tuple(r) for r in a64.tolist()]))
+        ctx.fail("area-float32-slope-minus-one" if near else "psd-spec-dtype",
+                 "psd.area of a specification stored as float32 differs from the area of the same numbers as float64"
+                 + (" (a -3 dB/octave segment whose computed slope misses the 1e-8 test in single precision contributes (f2*p2 - f1*p1)/(s+1) = 0)"
+                    if near else ""), {"spec32": [list(r) for r in a64.tolist()]}, np.asarray(ar32, dtype=float).tolist(), ar64.tolist())
+        return True
+    if not np.allclose(i32, i64, rtol=1e-4, atol=0):
+        ctx.fail("psd-spec-dtype", "psd.interp of a specification stored as float32 differs from the same numbers as float64",
+                 {"spec32": [list(r) for r in a64.tolist()]}, i32.tolist(), i64.tolist())
+        return True
+    return False
+
+
 def _or_dtypes(ctx, inp):
     """storage type of the inputs of fixtime / area / interp / rescale: integer arrays, single precision, Python lists -
     the result must be that of the same numbers as float64"""
@@ -1771,9 +1798,10 @@ def _or_dtypes(ctx, inp):
     with np.errstate(all="ignore"):
         a_f = psd.area(spec_i.astype(float))
         i_f = psd.interp(spec_i.astype(float), x).ravel()
-        for sp, nm in ((spec_i, "int64 array"), (spec_i.astype(np.int32), "int32 array"), ((f.tolist(), p.tolist()), "lists"),
-                       (spec_i.astype(np.float32), "float32 array")):
-            rt = 1e-5 if nm.startswith("float32") else 1e-12
+        if _or_spec_float32(ctx, spec_i.tolist()):
+            return
+        for sp, nm in ((spec_i, "int64 array"), (spec_i.astype(np.int32), "int32 array"), ((f.tolist(), p.tolist()), "lists")):
+            rt = 1e-12
             a = psd.area(sp)
             i_ = np.asarray(psd.interp(sp, x)).ravel()
             if not (np.allclose(a, a_f, rtol=rt, atol=0) and np.allclose(i_, i_f, rtol=rt, atol=0)):
@@ -2007,6 +2035,9 @@ def search(ctx, hints):
     for sp in specs[:ctx.pick(60, 400)]:
         if len(sp) >= 2:
             _or_nanspec(ctx, sp, rng.randrange(0, len(sp) + 1))
+    # single-precision specifications; the first one is finding area-float32-slope-minus-one's reproducer
+    for sp in ([[42.0, 8.0], [48.0, 7.0]], [[1.0, 1.0], [2.0, 0.5]], [[10.0, 4.0], [20.0, 2.0], [40.0, 1.0]], [[20.0, 1.0], [40.0, 4.0], [80.0, 2.0]]):
+        _or_spec_float32(ctx, sp)
     for _ in range(ctx.pick(25, 200)):
         _or_dtypes(ctx, {"tseed": rng.randint(0, 10 ** 6)})
     # resample ------------------------------------------------------------------------
@@ -2024,6 +2055,8 @@ def replay(ctx, data):
     sub = type(ctx)(ctx.prop, ctx.tier, ctx.seed)
     if "hold" in i and "t" in i:
         _or_fixtime(sub, i)
+    elif "spec32" in i:
+        _or_spec_float32(sub, i["spec32"])
     elif "tseed" in i:
         _or_dtypes(sub, {"tseed": i["tseed"]})
     elif "nanrow" in i:
